@@ -991,6 +991,20 @@ def constructor_rules(ctx, classes):
             if not mcalls:
                 continue
             before = p.trace[:mcalls[0]]
+            # each header attribute the constructor fills from a parameter
+            # is filled from the parameter OF THAT NAME (the four classes
+            # are copies of each other: a line copied from a neighbour keeps
+            # the neighbour's right-hand side)
+            ps = set(init.params())
+            for attr, _t in spec.HEADER_FIELDS.values():
+                v = p.state.heap.get((selft, attr))
+                if kind(v) == 'param' and attr in ps and v[1] in ps:
+                    ctx.ob('C03.D7', init.qualname, 'field-from-its-'
+                           'parameter:%s' % attr, v[1] == attr,
+                           'the %s header field of the message is filled '
+                           'from the constructor parameter %r although there '
+                           'is a parameter %r' % (attr.upper(), v[1], attr),
+                           nontrivial=(v[1] != attr))
             for role, validators in VALIDATOR.items():
                 v = p.state.heap.get((selft, role))
                 if v is None or kind(v) != 'param':
